@@ -111,3 +111,28 @@ def resolve(sections, acc, system_config, memory_mode, cli_arena, default_sys=No
         raise ConfigError("arena_cache_size out of range")
     r["clock"], r["burst"], r["rlat"], r["wlat"] = clock, burst, rlat, wlat
     return r
+
+
+# internal-default sections, as OPTIONS.md documents them ("maps to the following configs from the example vela.ini file"):
+# Ethos-U65: system Ethos_U65_Client_Server, memory mode Dedicated_Sram; Ethos-U55: system Ethos_U55_High_End_Embedded, memory mode Shared_Sram
+def documented_default_sys(acc):
+    def f(r, clock, burst, rlat, wlat):
+        if "u65" in acc:
+            r["core_clock"], r["axi0_port"], r["axi1_port"] = 1e9, "Sram", "Dram"
+            clock["Sram"], burst["Sram"], rlat["Sram"], wlat["Sram"] = 1.0, 32, 32, 32
+            clock["Dram"], burst["Dram"], rlat["Dram"], wlat["Dram"] = 0.75, 128, 500, 250
+        else:
+            r["core_clock"], r["axi0_port"], r["axi1_port"] = 500e6, "Sram", "OffChipFlash"
+            clock["Sram"], burst["Sram"], rlat["Sram"], wlat["Sram"] = 1.0, 32, 32, 32
+            clock["OffChipFlash"], burst["OffChipFlash"], rlat["OffChipFlash"], wlat["OffChipFlash"] = 0.125, 128, 64, 64
+    return f
+
+
+def documented_default_mem(acc):
+    def f(r):
+        if "u65" in acc:
+            r["const_mem_area"], r["arena_mem_area"], r["cache_mem_area"] = "Axi1", "Axi1", "Axi0"
+            r["arena_cache_size"] = 393216
+        else:
+            r["const_mem_area"], r["arena_mem_area"], r["cache_mem_area"] = "Axi1", "Axi0", "Axi0"
+    return f
